@@ -556,7 +556,7 @@ func (ctx Ctx) methodExpr(call *ast.CallExpr) coq.Expr {
 	if ctx.info.Types[call.Fun].IsType() {
 		// string -> []byte conversions are handled specially
 		if f, ok := call.Fun.(*ast.ArrayType); ok {
-			if f.Len == nil && isIdent(f.Elt, "byte") {
+			if f.Len == nil && (isIdent(f.Elt, "byte") || isIdent(f.Elt, "uint8")) {
 				arg := args[0]
 				if isString(ctx.typeOf(arg)) {
 					return ctx.newCoqCall("StringToBytes", args)
